@@ -434,6 +434,7 @@ func newCliEnv(setup func(e *cliEnv), opts ...ClientOption) *cliEnv {
 	if setup != nil {
 		setup(e)
 	}
+	lastCliEnv = e
 	e.peer.start()
 	e.c, e.err = NewClientPipe(e.s2c, e.c2s, opts...)
 	return e
